@@ -42,7 +42,14 @@ Record project := {
   p_nitpick : list str;         (* targets t with ("myst", t) in nitpick_ignore *)
   p_url_schemes : list str;     (* keys of myst_url_schemes *)
   p_dirhtml : bool;             (* builder: false = html, true = dirhtml *)
-  p_all_external : bool }.      (* myst_all_links_external (commonmark_only / gfm_only are off) *)
+  p_all_external : bool;        (* myst_all_links_external *)
+  p_commonmark_only : bool;     (* myst_commonmark_only *)
+  p_gfm_only : bool }.          (* myst_gfm_only *)
+
+(* the three switches under which DocutilsRenderer.render_link renders EVERY link as a plain URL
+   (commonmark_only or gfm_only or all_links_external): no MyST link resolution then *)
+Definition plain_url_mode (P : project) : bool :=
+  orb (orb (p_commonmark_only P) (p_gfm_only P)) (p_all_external P).
 
 Fixpoint find_doc (ds : list docrec) (n : str) : option docrec :=
   match ds with
@@ -241,7 +248,7 @@ Definition opt_str_eqb (o : option str) (s : str) : bool :=
 
 Definition render_link (P : project) (d : docrec) (l : link) : cls :=
   let href := l_dest l in
-  if p_all_external P then C_url href
+  if plain_url_mode P then C_url href
   else if startswith href s_hash then C_anchor href
   else
     let scheme := scheme_of href in
